@@ -349,9 +349,10 @@ def judge_load(acc, case, entries, chip, app_id, prefill=None, via="entries",
             j = next(j for j in range(len(want)) if got[j] != want[j])
             acc.violation(
                 dict(kind="router_contents"), case,
-                "router entry %d holds key=%#x mask=%#x route=%#x app=%r, "
-                "given entry %d is key=%#x mask=%#x route=%#x app=%d"
-                % ((new[j],) + tuple(got[j]) + (j,) + want[j]))
+                "router entry %d holds (key, mask, route, app) = %r "
+                "(\"alloc\" = allocated but never loaded), given entry %d "
+                "is key=%#x mask=%#x route=%#x app=%d"
+                % ((new[j], got[j], j) + want[j]))
             return
         if any(ch.router != others[xy] for xy, ch in sim.chips.items()
                if xy != tuple(chip)):
